@@ -23,6 +23,10 @@ pub enum Kind {
         period_ms: u8,
         #[serde(default)]
         restart: Option<(u8, u8)>,
+        /// further tasks of the same module that sleep until the very same instants as the main task and draw a
+        /// random number after every wake-up: which task gets which number depends on the wake/poll order
+        #[serde(default)]
+        twins: u8,
     },
 }
 
@@ -87,6 +91,7 @@ struct AsyncMod {
     restart: Option<(u8, u8)>,
     rounds: u8,
     period: u8,
+    twins: u8,
     ttl: u8,
     tx: Option<tokio::sync::mpsc::UnboundedSender<(u16, u8)>>,
 }
@@ -125,6 +130,15 @@ impl Module for AsyncMod {
             }
             let _ = ttl0;
         }));
+        for k in 0..self.twins {
+            tokio::spawn(async move {
+                for _ in 0..rounds {
+                    sleep(Duration::from_millis(period)).await;
+                    let v: u32 = random();
+                    net::log("twin-draw", k as i64, v as i64);
+                }
+            });
+        }
         let ttl = self.ttl;
         tokio::spawn(async move {
             sleep(Duration::from_micros(700)).await;
@@ -166,13 +180,14 @@ pub fn trace_of(case: &Case, seed: u64) -> Trace {
                     outs,
                 },
             ),
-            Kind::Async { rounds, period_ms, restart } => sim.node(
+            Kind::Async { rounds, period_ms, restart, twins } => sim.node(
                 format!("n{i}"),
                 AsyncMod {
                     inc: 0,
                     restart: *restart,
                     rounds: *rounds % 8,
                     period: *period_ms % 5 + 1,
+                    twins: *twins % 4,
                     ttl: case.ttl % 10,
                     tx: None,
                 },
@@ -313,6 +328,9 @@ pub fn run_case(case: &Case) -> Result<(bool, Vec<&'static str>), Failure> {
     if has_async {
         labels.push("async-module");
     }
+    if t1.log.windows(2).any(|w| w[0].1 == "twin-draw" && w[1].1 == "twin-draw" && w[0].0 == w[1].0 && w[0].2 == w[1].2 && w[0].3 != w[1].3) {
+        labels.push("two-tasks-woken-at-the-same-instant");
+    }
     if t1.log.iter().any(|r| r.1 == "emit-at-end") {
         labels.push("emission-during-tear-down");
     }
@@ -326,7 +344,8 @@ impl Prop for C04 {
     fn rule() -> String {
         "proptest: 2..6 modules in a ring plus generated chords, every link a channel with latency, bitrate and jitter > 0; module kinds: \
          synchronous handlers that draw random::<u64>() and choose the forwarding gate with sample(Uniform), and async modules whose task loops \
-         over an unbiased tokio::select! of two sleeps due at the same instant and the inbox, drawing random numbers, optionally \
+         over an unbiased tokio::select! of two sleeps due at the same instant and the inbox, drawing random numbers, with 0..3 further \
+         tasks per module that sleep until the very same instants and draw a number after each wake-up, optionally \
          shutting themselves down and restarting (new runtime, the task starts over); random start delays; generated \
          Builder::seeded seed. Oracle (differential): the complete trace (time, module path, event kind, message ids, random values, select \
          branches, forwarding choices) plus final time, event count and result must be identical for two runs in the same worker process \
@@ -351,10 +370,11 @@ impl Prop for C04 {
     fn strategy(_tier: Tier) -> BoxedStrategy<Case> {
         let kind = prop_oneof![
             (0u8..4).prop_map(|draws| Kind::Sync { draws }),
-            (0u8..8, 0u8..5, proptest::option::weighted(0.4, (0u8..8, 0u8..6))).prop_map(|(rounds, period_ms, restart)| Kind::Async {
+            (0u8..8, 0u8..5, proptest::option::weighted(0.4, (0u8..8, 0u8..6)), 0u8..4).prop_map(|(rounds, period_ms, restart, twins)| Kind::Async {
                 rounds,
                 period_ms,
-                restart
+                restart,
+                twins
             }),
         ];
         (
